@@ -18,6 +18,7 @@ inductive Ctx where
   | hole
   | slice (c : Ctx) (sm : SliceMods)
   | ptr (c : Ctx) (zp : DVal) (notNil : Option Test)
+  | pre (ps : PreSpec) (c : Ctx)
   | field (before : Fields) (key : String) (fm : FieldMeta) (c : Ctx) (after : Fields)
       (tests : List Test) (posts : List Post)
 
@@ -25,6 +26,7 @@ def Ctx.fill : Ctx → Schema → Schema
   | .hole, s => s
   | .slice c sm, s => .slice (c.fill s) sm
   | .ptr c zp nn, s => .ptr (c.fill s) zp nn
+  | .pre ps c, s => .pre ps (c.fill s)
   | .field before k fm c after tests posts, s =>
     .struct (before.append (.cons k fm (c.fill s) after)) tests posts
 
@@ -41,6 +43,7 @@ theorem fill_dtype (c : Ctx) (s₁ s₂ : Schema) (h : s₁.dtype = s₂.dtype) 
   | hole => exact h
   | slice c sm ih => rfl
   | ptr c zp nn ih => simpa [Ctx.fill, Schema.dtype] using ih
+  | pre ps c ih => simpa [Ctx.fill, Schema.dtype] using ih
   | field => rfl
 
 theorem keys_append_cons (after : Fields) (k : String) (fm : FieldMeta) (s₁ s₂ : Schema) :
@@ -85,6 +88,12 @@ theorem fill_congr (env : Env) (m : Mode) (s₁ s₂ : Schema) (h : SpecEquiv en
     unfold proc
     rw [this]
   | ptr c zp nn ih =>
+    refine ⟨by simpa [Ctx.fill, Schema.dtype] using ih.1, ?_⟩
+    intro tag path v d st
+    simp only [Ctx.fill]
+    unfold proc
+    simp only [ih.2, ih.1]
+  | pre ps c ih =>
     refine ⟨by simpa [Ctx.fill, Schema.dtype] using ih.1, ?_⟩
     intro tag path v d st
     simp only [Ctx.fill]
